@@ -36,6 +36,9 @@ def main():
         return 2
     meta = {'seed': sid, 'property': prop, 'note': open(os.path.join(src, 'note.txt')).read()
             if os.path.exists(os.path.join(src, 'note.txt')) else '', 'ran': {}}
+    old_meta = os.path.join(src, 'meta.json')
+    if not meta['note'] and os.path.exists(old_meta):
+        meta['note'] = json.load(open(old_meta)).get('needs', '')
     try:
         demo = os.path.join(src, 'demo.py')
         rc0, o0 = sh('/venv/bin/python %s %s' % (demo, scratch))
@@ -74,7 +77,7 @@ def main():
     dst = os.path.join(VERIF, 'seeded', sid)
     os.makedirs(dst, exist_ok=True)
     for f in ('patch.diff', 'demo.py', 'note.txt'):
-        if os.path.exists(os.path.join(src, f)):
+        if os.path.exists(os.path.join(src, f)) and os.path.abspath(src) != os.path.abspath(dst):
             shutil.copy(os.path.join(src, f), os.path.join(dst, f))
     meta['needs'] = meta.pop('note')
     json.dump(meta, open(os.path.join(dst, 'meta.json'), 'w'), indent=1)
